@@ -276,6 +276,31 @@ namespace sim
       return id;
    }
 
+   // ------------------------------------------------------------ rematch sub-inputs
+   // A rematch<> sub-input ends where the head rule stopped; while rules run on it, the bytes between that
+   // end and the end of the enclosing window are outside the data this input makes available.
+   void sub_window_enter( const char* sub_end ) noexcept;
+   void sub_window_leave() noexcept;
+
+   template< typename In >
+   struct SubWindow
+   {
+      explicit SubWindow( const In& in ) noexcept
+      {
+         if constexpr( input_kind< In > == 0 && !is_plain_buffer< In > ) {
+            sub_window_enter( in.end() );
+         }
+      }
+      ~SubWindow()
+      {
+         if constexpr( input_kind< In > == 0 && !is_plain_buffer< In > ) {
+            sub_window_leave();
+         }
+      }
+      SubWindow( const SubWindow& ) = delete;
+      void operator=( const SubWindow& ) = delete;
+   };
+
    // ------------------------------------------------------------ control
    template< typename Rule, int CF >
    struct ctl_impl
@@ -367,6 +392,7 @@ namespace sim
 #endif
          try {
             on_enter();
+            const SubWindow< In > sw( in );
             const bool result = pegtl::normal< Rule >::template match< A, M, Action, Control >( in, st... );
             on_leave();
             log_event( Ev::EXIT, r, fl | ( result ? F_RESULT : 0 ), Action< void >::family, CF, snap( in ), sid_of( st... ) );
@@ -618,6 +644,7 @@ namespace sim
          const Snap s = snap( *this );
          log_event( Ev::SET_END, 0, 0, 0, 0, s, 0, static_cast< std::uint64_t >( new_end - W.arena ) );
          if( new_end >= W.arena && new_end <= real_end ) {
+            W.mem_end_off = static_cast< std::size_t >( new_end - W.arena );
             SIM_UNPOISON( W.arena, W.xlen );
             if( new_end < real_end ) {
                SIM_POISON( new_end, static_cast< std::size_t >( real_end - new_end ) );
@@ -650,6 +677,7 @@ namespace sim
       char* base = nullptr;
       std::size_t capacity = 0;
       std::size_t shifted = 0;  // total bytes by which discard() moved the data (absolute offset = ptr - base + shifted)
+      const char* end = nullptr;  // end of the delivered, not yet discarded data
    };
    extern BufCtx g_buf;
 
@@ -676,6 +704,7 @@ namespace sim
          g_buf.base = const_cast< char* >( this->current() );
          g_buf.capacity = this->buffer_capacity();
          g_buf.shifted = 0;
+         g_buf.end = g_buf.base;
          SIM_POISON( g_buf.base, g_buf.capacity );
       }
 
@@ -758,6 +787,7 @@ namespace sim
             if( new_end < old_end ) {
                SIM_POISON( new_end, static_cast< std::size_t >( old_end - new_end ) );
             }
+            g_buf.end = new_end;
          }
          log_event( Ev::DISCARD, 0, 0, 0, 0, snap( *this ), 0, occ, moved ? 1 : 0 );
       }
